@@ -208,12 +208,16 @@ What differs between the two code paths: (1) `input_scaling * (x - kernel)` vs
 
 /-- **C14/T3.** With the function's scaling tensor broadcasting to the layer's per-input scaling, and
 `location_parameters = kernel`, `cdf_fn` and `CDF.call` return the same tensor, for both reductions,
-every activation (any `σ`), sparsity factor, shape and input. -/
+every activation (any `σ`), sparsity factor `≥ 1`, shape and input — including the rejections: both
+raise a `ValueError` for indivisible shapes and for a kernel without keypoints (`CDF.__init__` resp.
+`_verify_cdf_params`, fixed finding F-C15-e). `1 ≤ U`: `CDF` rejects `units < 1` in its constructor,
+`cdf_fn` has no such check. -/
 theorem C14_T3_cdf_fn_eq_layer (a : Activation) (σ : ℚ → ℚ) (red : Reduction) (f U : Nat) (scale : List ℚ)
-    (sc kernel : List (List (List ℚ))) (K W : Nat) (x : List ℚ)
+    (sc kernel : List (List (List ℚ))) (K W : Nat) (x : List ℚ) (hU : 1 ≤ U) (hf : 1 ≤ f)
     (hsc : ∀ i k j, bget3 sc i k j = bgetR scale i) :
     cdfFn a σ red f U (some sc) kernel K W x = layerCall a σ red f U scale kernel K W x := by
-  unfold cdfFn layerCall
+  rw [layerCall_eq a σ red f U scale kernel K W x hU hf]
+  unfold cdfFn
   have : fnCdfs a σ (some sc) kernel K W x = layerCdfs a σ scale kernel K W x := by
     unfold fnCdfs layerCdfs
     apply List.map_congr_left; intro i _
@@ -225,9 +229,10 @@ theorem C14_T3_cdf_fn_eq_layer (a : Activation) (σ : ℚ → ℚ) (red : Reduct
 
 /-- **C14/T3.** `scaling_parameters=None` is the layer with input scaling 1. -/
 theorem C14_T3_cdf_fn_no_scaling (a : Activation) (σ : ℚ → ℚ) (red : Reduction) (f U : Nat)
-    (kernel : List (List (List ℚ))) (K W : Nat) (x : List ℚ) :
+    (kernel : List (List (List ℚ))) (K W : Nat) (x : List ℚ) (hU : 1 ≤ U) (hf : 1 ≤ f) :
     cdfFn a σ red f U none kernel K W x = layerCall a σ red f U [1] kernel K W x := by
-  unfold cdfFn layerCall
+  rw [layerCall_eq a σ red f U [1] kernel K W x hU hf]
+  unfold cdfFn
   have : fnCdfs a σ none kernel K W x = layerCdfs a σ [1] kernel K W x := by
     unfold fnCdfs layerCdfs
     apply List.map_congr_left; intro i _
@@ -260,14 +265,10 @@ theorem C14_T3_sparsity_gather (a : Activation) (σ : ℚ → ℚ) (f W : Nat) (
     (hu : u < f * W) :
     entry out r u = cdfEntry a σ K (fun k =>
       bgetR scale (r * f + u / W) * (getR x (r * f + u / W) - get3 kernel (r * f + u / W) k (u % W))) := by
-  unfold layerCall at h
-  cases hver : verifyCdf f x.length (f * W) K W kernel.length with
-  | error e => simp [hver, bind, Except.bind] at h
-  | ok _ =>
-    simp only [hver, bind, Except.bind, pure, Except.pure, Except.ok.injEq] at h
-    rw [← h, layerCdfs_eq]
-    simp only [reduceStage, sparsify, hf, ne_eq, not_false_eq_true, if_true]
-    exact entry_reshape_gather f x.length W _ r u hr hu
+  obtain ⟨-, -, hout⟩ := layerCall_ok h
+  rw [hout, layerCdfs_eq]
+  simp only [reduceStage, sparsify, hf, ne_eq, not_false_eq_true, if_true]
+  exact entry_reshape_gather f x.length W _ r u hr hu
 
 /-! ## T4 — ParallelCombination, Aggregation, RTL -/
 
